@@ -25,6 +25,8 @@ def scenarios(tier):
   for bs, blk in ((0, 0), (2, 1), (2, 0)):
     add(f'1p1i-1c-batch{bs}-block{blk}', nprod=1, items=1, ncons=1, consumer='batch', cap=0, batch=bs, block=blk, depths=(40, 50, 60, 70))
   add('1p1i-1c-batch2-block1-cap1', nprod=1, items=1, ncons=1, consumer='batch', cap=1, batch=2, block=1, depths=(40, 50, 60, 70))
+  # three threads, no elements: the end-of-stream bookkeeping across producers (declared vs. started enqueuers, all return values)
+  add('2p0i-1c-get', nprod=2, items=0, ncons=1, consumer='get', cap=0, depths=(30, 40, 50, 60))
   if tier == 'thorough':
     for bs, blk in ((0, 0), (1, 0), (2, 1), (3, 1), (3, 0)):
       add(f'1p2i-1c-batch{bs}-block{blk}', nprod=1, items=2, ncons=1, consumer='batch', cap=0, batch=bs, block=blk, depths=(60, 70, 80, 90, 100))
